@@ -93,7 +93,7 @@ struct FamilySpec {
     std::vector<long> blocks;
     std::string str() const {
         std::string s = kind + ":p=" + std::to_string(chunks);
-        if (kind == "density") s += ":rep=" + std::to_string(rep) + ":w=" + std::to_string(width) + ":word=" + std::to_string(word) + ":seam=" + std::to_string(seam) + (top ? ":top=1" : "");
+        if (kind == "density") s += ":rep=" + std::to_string(rep) + ":w=" + std::to_string(width) + ":word=" + std::to_string(word) + ":seam=" + std::to_string(seam) + (top ? ":top=" + std::to_string(top) : "");
         else if (kind == "chunktail") s += ":rep=" + std::to_string(rep) + ":w=" + std::to_string(width) + ":word=" + std::to_string(word);
         else if (kind == "longrun") s += ":n=" + std::to_string(n) + ":seam=" + std::to_string(seam) + ":rep=" + std::to_string(rep) + ":w=" + std::to_string(width) + ":word=" + std::to_string(word);
         else if (kind == "span") s += ":rep=" + std::to_string(rep) + ":w=" + std::to_string(width) + ":word=" + std::to_string(word);
@@ -208,7 +208,10 @@ template<typename K> bool generate_family(const FamilySpec &f, size_t eps, std::
         // `word` (base 4 -> multipliers 1,2,4,8), `width` digits: many short bottom segments and several segments on the upper levels.
         // `seam` encodes an optional jump: 1 = gap of 3x the span so far after the first digit block, 2 = 30x after the first block,
         // 3 = 30x after the third block (heavily skewed segment keys: long runs of empty Elias-Fano / top-level buckets).
-        long w = f.word; W cur = f.top ? hi / 4 * 3 : W(1000);   // top: keys beyond 2^53 for 64-bit types (not exactly representable as double)
+        // top = 1: keys beyond 2^53 for 64-bit types (not exactly representable as double); top = 2: negative keys of a signed type
+        if (f.top == 2 && !std::is_signed_v<K>) return false;
+        const W origin = f.top == 1 ? hi / 4 * 3 : f.top == 2 ? W(std::numeric_limits<K>::lowest()) / 4 * 3 : W(1000);
+        long w = f.word; W cur = origin;
         const W mult[4] = {1, 2, 4, 8};
         long csz = 2 * long(eps) + 2;   // cluster size: one segment per cluster for this epsilon
         if (csz * f.rep * f.width > 800000) return false;   // member too large for this epsilon
@@ -220,7 +223,7 @@ template<typename K> bool generate_family(const FamilySpec &f, size_t eps, std::
                 if (f.rep * f.width <= 60000 || c < 3 || c + 3 >= f.rep || c % 37 == 0) { focus.push_back(first_pos); focus.push_back(first_pos + size_t(csz) - 1); }
             }
             if ((f.seam == 1 && d == 0) || (f.seam == 2 && d == 0) || (f.seam == 3 && d == 2)) {
-                W span = cur - (f.top ? hi / 4 * 3 : W(1000)), jump = span * (f.seam == 1 ? 3 : 30);
+                W span = cur - origin, jump = span * (f.seam == 1 ? 3 : 30);
                 keys.push_back(cur + jump / 2);   // a lone key in the middle of the jump
                 focus.push_back(keys.size() - 1);
                 cur += jump;
